@@ -621,12 +621,17 @@ theorem wc_execC (x : CbX) (o : COp) : KeepsW x (execC o) := by
     split
     · exact hoare_conseq (hoare_of_keeps (keeps_of_frameW (fw_emit _) (WCbP x))) (fun _ h => h.1) (fun _ _ h => h) (fun _ h => h)
     · rename_i hnone
-      intro s ⟨hs, he⟩
-      subst he
-      refine hoare_neww x o k hn s0 ⟨hs, ?_⟩
-      cases hl : alookup s0.srcs k with
-      | none => rfl
-      | some v => simp [hl] at hnone
+      apply hoare_bind (fun _ s => WCb x s ∧ alookup s.srcs k = none)
+      · apply hoare_modify
+        intro s ⟨hs, he⟩
+        subst he
+        refine ⟨hs, ?_⟩
+        show alookup s0.srcs k = none
+        cases hl : alookup s0.srcs k with
+        | none => rfl
+        | some v => simp [hl] at hnone
+      · intro _
+        exact hoare_neww x o k hn
 macro_rules | `(tactic| wc_lemma) => `(tactic| with_reducible exact wc_execC _ _)
 
 theorem wc_runCb (x : CbX) (k : Nat) (p : Payload) : KeepsW x (runCb k p) := by unfold runCb; repeat wc_step x
